@@ -8,7 +8,7 @@ import itertools
 import re
 
 from . import core, geom, layout, c09
-from .geom import fmt
+from .geom import fmt, F
 
 LEVEL = "exploration"
 TECHNIQUE = "metamorphic runtime oracle: enumerate sibling permutations (the evaluation schedules of the retry loop) and compare per-id geometry; reference layout for the baseline"
@@ -182,7 +182,7 @@ def check_case(ctx, case):
         if base is None:
             base = (o, res, doc, r)
             if r.ok and case.get("els"):
-                c09.check_doc(ctx, dict(input=doc.encode(), deps=case.get("deps", {})), case["els"], r.out)
+                c09.check_doc(ctx, dict(input=doc.encode(), deps=case.get("deps", {}), tol=case.get("tol", "0")), case["els"], r.out)
             continue
         if res[0] != base[1][0]:
             kinds = sorted(set(i[3] for i in items))
@@ -221,7 +221,9 @@ def spelling(e):
 
 def make_case(rng):
     n = rng.choice([3, 3, 4, 4, 5, 5, 6, 7])
-    g = layout.LayoutGen(rng, exact=True, use_prev=False).build(n)
+    # one case in five on decimal values (tenths, round sizes): the comparison is between orders, so no tolerance is involved
+    decimal = rng.random() < 0.2
+    g = layout.LayoutGen(rng, exact=True, use_prev=False, decimal=decimal).build(n)
     # only top-level siblings are permuted
     items = [[e.id, e.render(), sorted(d for d in e.deps if d in {t.id for t in g.els}), "layout:" + "+".join(sorted(f for f in e.feats if f.startswith("form.")))]
              for e in g.els]
@@ -253,7 +255,10 @@ def make_case(rng):
     deps = {eid: sorted(e.deps) for eid, e in g.all.items()}
     spell = {e.id: spelling(e) for e in g.all.values()}
     feats = sorted(set(g.features()) | {"referrer." + i[3].split(":")[0] for i in items})
-    return dict(items=items, els=els, deps=deps, spell=spell, feats=feats, oseed=rng.randrange(1 << 30))
+    case = dict(items=items, els=els, deps=deps, spell=spell, feats=feats + (["values.decimal"] if decimal else []), oseed=rng.randrange(1 << 30))
+    if decimal:
+        case["tol"] = fmt(F(11, 10000) * (1 + max(g.chain.values())))
+    return case
 
 
 def make_negative(rng):
